@@ -1,6 +1,7 @@
 //! `zv <scenario> [--tier quick|thorough] [--seed N] [--only X] [--index I] [--limit N]`: runs the
 //! real zlink code on generated inputs and prints one line per case (input + canonical observation).
 mod common;
+mod chain;
 mod rx;
 mod ser;
 mod tx;
@@ -25,6 +26,7 @@ fn main() {
     match scenario.as_str() {
         "rx" => rx::main(&o),
         "rx-bounds" => rx::main_bounds(&o),
+        "chain" => chain::main(&o),
         "ser" => ser::main(&o),
         "ser-f32" => ser::main_f32(&o),
         "tx" => tx::main(&o, false),
